@@ -523,6 +523,8 @@ class HostMatches(Matcher):
     """Matches requests from hosts specified by ``host_pattern`` regex."""
 
     def __init__(self, host_pattern: str | Pattern) -> None:
+        # String patterns are meant to match the whole host name.
+        self._whole = isinstance(host_pattern, basestring_type)
         if isinstance(host_pattern, basestring_type):
             if not host_pattern.endswith("$"):
                 host_pattern += "$"
@@ -531,10 +533,14 @@ class HostMatches(Matcher):
             self.host_pattern = host_pattern
 
     def match(self, request: httputil.HTTPServerRequest) -> dict[str, Any] | None:
-        if self.host_pattern.match(request.host_name):
-            return {}
-
-        return None
+        match = self.host_pattern.match(request.host_name)
+        if match is None:
+            return None
+        # "$" also matches before a trailing newline, and an escaped "\$" at
+        # the end of the pattern is not an anchor at all.
+        if self._whole and match.end() != len(request.host_name):
+            return None
+        return {}
 
 
 class DefaultHostMatches(Matcher):
@@ -558,6 +564,8 @@ class PathMatches(Matcher):
     """Matches requests with paths specified by ``path_pattern`` regex."""
 
     def __init__(self, path_pattern: str | Pattern) -> None:
+        # String patterns are meant to match the whole path.
+        self._whole = isinstance(path_pattern, basestring_type)
         if isinstance(path_pattern, basestring_type):
             if not path_pattern.endswith("$"):
                 path_pattern += "$"
@@ -575,6 +583,10 @@ class PathMatches(Matcher):
     def match(self, request: httputil.HTTPServerRequest) -> dict[str, Any] | None:
         match = self.regex.match(request.path)
         if match is None:
+            return None
+        # "$" also matches before a trailing newline, and an escaped "\$" at
+        # the end of the pattern is not an anchor at all.
+        if self._whole and match.end() != len(request.path):
             return None
         if not self.regex.groups:
             return {}
